@@ -45,7 +45,7 @@ FAMILIES_T = [("elec", (1, 2, 3, 4)), ("two", (1, 2, 3, 4)), ("spin", (1, 2, 3))
 def BOUND(tier):
     if tier == "quick":
         return {"families": FAMILIES_Q, "prod": "all sectors", "depth": 2, "bfs": "single-operand gauge fixpoint (a with b fresh, b with a fresh)"}
-    return {"families": FAMILIES_T, "prod": "all sectors", "depth": 3, "bfs": "joint gauge fixpoint of (a,b)"}
+    return {"families": FAMILIES_T, "prod": "all sectors", "depth": "3 for n = 1, 2 for n >= 2", "bfs": "joint gauge fixpoint of (a,b)"}
 
 
 def configs(tier):
@@ -76,9 +76,8 @@ def cases(tier, seed):
         for g in ga:
             yield dict(base, mode="prod", shard=g)
         # (ii) depth-bounded, sharded by first action
-        depth = 2 if quick else 3
-        if not quick and n == 4:
-            depth = 2
+        # depth 3 multiplies the work by the alphabet size (~60): affordable for one-site chains only (stated in BOUND)
+        depth = 2 if (quick or n >= 2) else 3
         for a in acts["all"]:
             yield dict(base, mode="depth", depth=depth, shard=a.name)
         # (iii) gauge BFS + leaf groups
